@@ -150,6 +150,8 @@ def gen_fault(w, rng, cfg):
         s = rng.choice(lib) if lib and rng.chance(0.7) else rng.choice(docs)
         if k == "wipe":
             return {"op": "scribble", "in": [s.id], "wipe": True}
+        if rng.chance(0.35):
+            return {"op": "scribble", "in": [s.id], "dropkey": rng.randint(0, 10 ** 6), "edits": []}
         edits = [[rng.randint(0, 500), rng.choice(["set", "del", "replace", "other"]), rng.randint(0, 50)] for _ in range(rng.randint(1, 4))]
         return {"op": "scribble", "in": [s.id], "edits": edits}
     if k == "alias":
